@@ -14,7 +14,10 @@ import (
 	"github.com/go-netty/go-netty/verifsim/simrt"
 )
 
-func init() { Register(&PropDef{ID: "C15", Run: runC15}) }
+func init() {
+	Register(&PropDef{ID: "C15", Run: runC15})
+	c12Families = append(c12Families, runC15Multi) // process-wide codec state shared by concurrently served connections
+}
 
 type httpReq struct {
 	ID       int
@@ -34,6 +37,7 @@ type httpReq struct {
 	Flush    int // 0 never, 1 after the first write, 2 at the end
 	Copy     bool // body written with io.Copy from a plain reader (no WriteTo) instead of Write
 	LateRead bool // the handler reads the request body after it has produced its response
+	SelfClose bool // the handler finishes the response itself through io.Closer
 }
 
 type httpSeen struct {
@@ -90,6 +94,7 @@ func drawHTTPReq(e *Env, id int) *httpReq {
 	r.Flush = e.PB(3, 0.35)
 	r.Copy = e.P(5) == 4
 	r.LateRead = e.P(4) == 3
+	r.SelfClose = e.P(6) == 5
 	// wire form
 	var b bytes.Buffer
 	proto := "HTTP/1.1"
@@ -148,6 +153,10 @@ func (r *httpReq) String() string {
 
 //go:norace
 func runC15(e *Env) {
+	if e.P(6) == 5 {
+		runC15Multi(e)
+		return
+	}
 	cc := e.drawChan(true, []int{8, 2, 64})
 	if cc.Async {
 		// In non-blocking queue mode a full queue legitimately refuses part of a response (C18); the property
@@ -165,9 +174,64 @@ func runC15(e *Env) {
 		e.Describe("%s", r)
 	}
 	log := &httpLog{}
-	handler := http.HandlerFunc(func(w http.ResponseWriter, hr *http.Request) {
+	handler := c15Handler(reqs, log.add)
+	rig := e.NewRig(cc, false)
+	pl := netty.NewPipeline()
+	pl.AddLast(xhttp.ServerCodec(), xhttp.Handler(handler))
+	ch := cc.Factory()(1, rig.Ctx, pl, rig.Conn, rig.X)
+	rig.Conn.Frag = e.P(4)
+	e.Go("main", func() {
+		pl.ServeChannel(ch)
+		e.Go("peer", func() {
+			for i, r := range reqs {
+				rest := r.Wire
+				for len(rest) > 0 {
+					e.Step()
+					k := len(rest)
+					if e.P(3) == 2 {
+						k = 1 + e.P(len(rest))
+					}
+					rig.Conn.Feed(rest[:k])
+					rest = rest[k:]
+				}
+				if !pipelined {
+					// wait (bounded) until some response bytes for this request showed up or the server closed
+					for w := 0; w < 60 && !rig.Conn.Closed && countResponses(rig.Conn.Wire) <= i; w++ {
+						e.Step()
+					}
+				}
+			}
+		})
+	})
+	end := e.RunToEnd()
+	c15Oracle(e, reqs, log.Seen, rig.Conn, end, pipelined)
+	e.Count("short_reads_fired", rig.Conn.Fired.ShortReads)
+	e.Go("teardown", func() { ch.Close(fmt.Errorf("teardown")) })
+	e.Sim.Run()
+}
+
+// prevClass describes the request preceding request i (its unread body is what usually breaks request i).
+//
+//go:norace
+func prevClass(reqs []*httpReq, i int) string {
+	if i == 0 {
+		return "first"
+	}
+	p := reqs[i-1]
+	return fmt.Sprintf("after(body-mode=%d,read-body=%d,flush=%d)", p.BodyMode, p.ReadBody, p.Flush)
+}
+
+//go:norace
+func countResponses(wire []byte) int { return bytes.Count(wire, []byte("HTTP/1.")) }
+
+var _ = simnet.FragWhole
+
+// c15Handler is the http.Handler shared by all connections of a run: it executes the program of the request it
+// is given (found by the X-Id header) and reports what it saw.
+func c15Handler(reqs []*httpReq, add func(s *httpSeen)) http.Handler {
+	return http.HandlerFunc(func(w http.ResponseWriter, hr *http.Request) {
 		seen := &httpSeen{ID: hr.Header.Get("X-Id"), Method: hr.Method, Target: hr.URL.RequestURI(), Proto: hr.Proto}
-		log.add(seen)
+		add(seen)
 		var id int
 		fmt.Sscanf(seen.ID, "%d", &id)
 		if id < 0 || id >= len(reqs) || seen.ID == "" {
@@ -212,36 +276,19 @@ func runC15(e *Env) {
 		if r.Flush == 2 {
 			w.(http.Flusher).Flush()
 		}
-	})
-	rig := e.NewRig(cc, false)
-	pl := netty.NewPipeline()
-	pl.AddLast(xhttp.ServerCodec(), xhttp.Handler(handler))
-	ch := cc.Factory()(1, rig.Ctx, pl, rig.Conn, rig.X)
-	rig.Conn.Frag = e.P(4)
-	e.Go("main", func() {
-		pl.ServeChannel(ch)
-		e.Go("peer", func() {
-			for i, r := range reqs {
-				rest := r.Wire
-				for len(rest) > 0 {
-					e.Step()
-					k := len(rest)
-					if e.P(3) == 2 {
-						k = 1 + e.P(len(rest))
-					}
-					rig.Conn.Feed(rest[:k])
-					rest = rest[k:]
-				}
-				if !pipelined {
-					// wait (bounded) until some response bytes for this request showed up or the server closed
-					for w := 0; w < 60 && !rig.Conn.Closed && countResponses(rig.Conn.Wire) <= i; w++ {
-						e.Step()
-					}
-				}
+		if r.SelfClose {
+			if c, ok := w.(io.Closer); ok {
+				c.Close() // a handler that finishes its response itself; the adapter closes once more afterwards
 			}
-		})
+		}
 	})
-	end := e.RunToEnd()
+}
+
+// c15Oracle judges one connection: the requests sent on it, what the handler saw for them, and the bytes the
+// server wrote.
+//
+//go:norace
+func c15Oracle(e *Env, reqs []*httpReq, seen []*httpSeen, conn *simnet.Conn, end string, pipelined bool) {
 	// ---- oracle ----
 	// which requests must be served: up to and including the first one after which the connection closes
 	served := 0
@@ -262,11 +309,11 @@ func runC15(e *Env) {
 	// handler invocations
 	for i := 0; i < served; i++ {
 		r := reqs[i]
-		if i >= len(log.Seen) {
-			e.Violate("handler-once-per-request", "missing,"+prevClass(reqs, i), "request %d (%s %s) never reached the handler (%d invocations for %d requests to be served)", i, r.Method, clipS(r.Target, 20), len(log.Seen), served)
+		if i >= len(seen) {
+			e.Violate("handler-once-per-request", "missing,"+prevClass(reqs, i), "request %d (%s %s) never reached the handler (%d invocations for %d requests to be served)", i, r.Method, clipS(r.Target, 20), len(seen), served)
 			break
 		}
-		s := log.Seen[i]
+		s := seen[i]
 		if s.ID != fmt.Sprint(r.ID) || s.Method != r.Method || s.Target != r.Target {
 			e.Violate("handler-once-per-request", "wrong-request,"+prevClass(reqs, i), "handler invocation %d saw %s %s (X-Id %q) instead of request %d (%s %s)", i, s.Method, clipS(s.Target, 30), s.ID, i, r.Method, clipS(r.Target, 30))
 			break
@@ -278,13 +325,13 @@ func runC15(e *Env) {
 			e.Violate("handler-once-per-request", "wrong-body", "handler read %d body bytes for request %d instead of its %d-byte body", len(s.Body), i, len(r.Body))
 		}
 	}
-	if len(log.Seen) > served && len(e.Viol) == 0 {
-		s := log.Seen[served]
-		e.Violate("handler-once-per-request", "extra-invocation", "handler invoked %d times for %d requests to be served; extra invocation saw %s %s (X-Id %q)", len(log.Seen), served, s.Method, clipS(s.Target, 30), s.ID)
+	if len(seen) > served && len(e.Viol) == 0 {
+		s := seen[served]
+		e.Violate("handler-once-per-request", "extra-invocation", "handler invoked %d times for %d requests to be served; extra invocation saw %s %s (X-Id %q)", len(seen), served, s.Method, clipS(s.Target, 30), s.ID)
 	}
 	// responses as a standard parser reads them back
 	if len(e.Viol) == 0 {
-		br := bufio.NewReader(bytes.NewReader(rig.Conn.Wire))
+		br := bufio.NewReader(bytes.NewReader(conn.Wire))
 		for i := 0; i < served; i++ {
 			r := reqs[i]
 			resp, err := http.ReadResponse(br, &http.Request{Method: r.Method})
@@ -315,17 +362,17 @@ func runC15(e *Env) {
 	// connection handling
 	quiet := end == simrt.EndQuiescent || end == simrt.EndAllDone
 	if quiet && len(e.Viol) == 0 {
-		if mustClose && !rig.Conn.Closed {
+		if mustClose && !conn.Closed {
 			e.Violate("close-decision", "left-open", "the connection must be closed after response %d (request asked to close or response is not self-delimiting) but it is still open", served-1)
 		}
-		if !mustClose && rig.Conn.Closed {
+		if !mustClose && conn.Closed {
 			e.Violate("close-decision", "closed-early", "every request was keep-alive and every response self-delimiting, yet the connection was closed")
 		}
-		if rig.Conn.Closed && rig.Conn.Unflushed > 0 {
-			e.Violate("close-after-flush", "unflushed", "connection closed with %d response bytes not flushed", rig.Conn.Unflushed)
+		if conn.Closed && conn.Unflushed > 0 {
+			e.Violate("close-after-flush", "unflushed", "connection closed with %d response bytes not flushed", conn.Unflushed)
 		}
 	}
-	e.Count("requests_served", len(log.Seen))
+	e.Count("requests_served", len(seen))
 	if pipelined {
 		e.Count("pipelined_runs", 1)
 	}
@@ -338,23 +385,116 @@ func runC15(e *Env) {
 			e.Count("unread_request_bodies", 1)
 		}
 	}
-	e.Count("short_reads_fired", rig.Conn.Fired.ShortReads)
-	e.Go("teardown", func() { ch.Close(fmt.Errorf("teardown")) })
-	e.Sim.Run()
 }
 
-// prevClass describes the request preceding request i (its unread body is what usually breaks request i).
+// runC15Multi: several connections of one server process. The codec keeps process-wide state (pooled writers),
+// so what happened on one connection - here: a response finished by the handler itself whose final flush failed
+// because the transport was broken - must not leak into the responses of other connections that are served
+// concurrently afterwards.
 //
 //go:norace
-func prevClass(reqs []*httpReq, i int) string {
-	if i == 0 {
-		return "first"
+func runC15Multi(e *Env) {
+	type connRec struct {
+		rig  *Rig
+		ch   netty.Channel
+		pl   netty.Pipeline
+		reqs []*httpReq
+		log  *httpLog
 	}
-	p := reqs[i-1]
-	return fmt.Sprintf("after(body-mode=%d,read-body=%d,flush=%d)", p.BodyMode, p.ReadBody, p.Flush)
+	var all []*httpReq
+	conns := make([]*connRec, 3)
+	for c := range conns {
+		cc := e.drawChan(true, []int{8, 2})
+		if cc.Async {
+			cc.Until = true
+		}
+		if c == 0 {
+			cc = ChanCfg{} // the broken connection is synchronous: its transport error reaches the response writer
+		}
+		cr := &connRec{log: &httpLog{}}
+		n := 1 + e.P(2)
+		if c == 0 {
+			n = 1
+		}
+		for i := 0; i < n; i++ {
+			r := drawHTTPReq(e, len(all))
+			if c == 0 {
+				r.SelfClose, r.Flush, r.ConnHdr, r.Proto10 = true, 0, "", false
+				if len(r.Writes) == 0 {
+					r.Writes = [][]byte{[]byte("BODY")}
+				}
+			}
+			all = append(all, r)
+			cr.reqs = append(cr.reqs, r)
+		}
+		cr.rig = e.NewRig(cc, false)
+		conns[c] = cr
+	}
+	// the handler finds the connection of a request by its id
+	owner := func(id string) *connRec {
+		for _, cr := range conns {
+			for _, r := range cr.reqs {
+				if fmt.Sprint(r.ID) == id {
+					return cr
+				}
+			}
+		}
+		return conns[0]
+	}
+	handler := c15Handler(all, func(s *httpSeen) { owner(s.ID).log.add(s) })
+	for c, cr := range conns {
+		cr.pl = netty.NewPipeline()
+		cr.pl.AddLast(xhttp.ServerCodec(), xhttp.Handler(handler))
+		cfg := ChanCfg{Async: cr.rig.Async, Q: cr.rig.Q, Until: cr.rig.Until}
+		cr.ch = cfg.Factory()(int64(c+1), cr.rig.Ctx, cr.pl, cr.rig.Conn, cr.rig.X)
+		cr.rig.Conn.Frag = e.P(4)
+	}
+	conns[0].rig.Conn.FailWriteAt, conns[0].rig.Conn.FailWriteErr = 1, simnet.ErrReset
+	e.Describe("three connections; connection 0 (synchronous, transport writes fail) serves one request whose handler finishes the response itself; connections 1 and 2 are served concurrently afterwards")
+	for c, cr := range conns {
+		for _, r := range cr.reqs {
+			e.Describe("conn %d: %s", c, r)
+		}
+	}
+	feed := func(cr *connRec) {
+		for _, r := range cr.reqs {
+			rest := r.Wire
+			for len(rest) > 0 {
+				e.Step()
+				k := len(rest)
+				if e.P(3) == 2 {
+					k = 1 + e.P(len(rest))
+				}
+				cr.rig.Conn.Feed(rest[:k])
+				rest = rest[k:]
+			}
+		}
+	}
+	e.Go("main", func() {
+		conns[0].pl.ServeChannel(conns[0].ch)
+		feed(conns[0])
+		for w := 0; w < 300 && len(conns[0].log.Seen) == 0; w++ {
+			e.Step()
+		}
+		for w := 0; w < 40; w++ {
+			e.Step() // let the failed response be finished
+		}
+		for c := 1; c < len(conns); c++ {
+			cr := conns[c]
+			cr.pl.ServeChannel(cr.ch)
+			e.Go(fmt.Sprintf("peer%d", c), func() { feed(cr) })
+		}
+	})
+	end := e.RunToEnd()
+	for c := 1; c < len(conns); c++ {
+		c15Oracle(e, conns[c].reqs, conns[c].log.Seen, conns[c].rig.Conn, end, true)
+	}
+	e.Count("multi_connection_runs", 1)
+	e.Count("write_errors_fired", conns[0].rig.Conn.Fired.WriteErrs)
+	e.Go("teardown", func() {
+		for _, cr := range conns {
+			cr.ch.Close(fmt.Errorf("teardown"))
+		}
+	})
+	e.Sim.Run()
 }
-
-//go:norace
-func countResponses(wire []byte) int { return bytes.Count(wire, []byte("HTTP/1.")) }
-
-var _ = simnet.FragWhole
